@@ -30,6 +30,8 @@ SCRATCH_ROOT = os.environ.get("VERIF_SCRATCH", "/var/tmp")
 JOBS = int(os.environ.get("VERIF_JOBS", "14"))
 TOTAL_MEM_KB = int(os.environ.get("VERIF_TOTAL_MEM_KB", str(50 * 1024 * 1024)))
 MEM_KB = int(os.environ.get("VERIF_MEM_KB", str(10 * 1024 * 1024)))  # per process (ulimit -v)
+DEFAULT_MEM_GB = int(os.environ.get("VERIF_DEFAULT_MEM_GB", "8"))
+COMPILER_MEM_KB = int(os.environ.get("VERIF_COMPILER_MEM_KB", str(12 * 1024 * 1024)))
 SOLO_MEM_KB = int(os.environ.get("VERIF_SOLO_MEM_KB", str(40 * 1024 * 1024)))  # retry alone
 
 CRATE_OF_DIR = {"vm": "gluon_vm", "base": "gluon_base", "parser": "gluon_parser",
@@ -74,7 +76,9 @@ class Harness:
         self.unexplained = []
 
     def group_key(self):
-        return (self.crate, tuple(self.unwindset), self.mem_gb)
+        # one `cargo kani` invocation (= one build) per crate and unwindset; the memory class only
+        # steers how many CBMC processes run side by side (see run_group)
+        return (self.crate, tuple(self.unwindset))
 
 
 # a harness declared through a macro: `some_macro!(c01_name, ...`
@@ -357,10 +361,17 @@ def run_group(ws, crate, group, logfile, tier, _second_pass=False, _uw=None, _so
     shutil.rmtree(resdir, ignore_errors=True)
     jsn = os.path.join(ws.root, "export-%s-%d.json" % (crate, abs(hash(tuple(names))) % 100000))
     cap = max(h.cap for h in group)
-    mem_kb = group[0].mem_gb * 1024 * 1024 if group[0].mem_gb else MEM_KB
+    # memory classes: `mem=` annotation in GB (default DEFAULT_MEM_GB).  The address-space guard of
+    # every process is the largest class of the group; the number of parallel CBMC runs is what the
+    # machine's budget allows for the average class.
+    classes = [(h.mem_gb or DEFAULT_MEM_GB) for h in group]
+    mem_kb = max(classes) * 1024 * 1024
     if _solo:
         mem_kb = SOLO_MEM_KB
-    jobs = max(1, min(JOBS, len(group), TOTAL_MEM_KB // mem_kb))
+        jobs = 1
+    else:
+        avg_kb = int(sum(classes) / len(classes) * 1024 * 1024)
+        jobs = max(1, min(JOBS, len(group), TOTAL_MEM_KB // max(avg_kb, 1)))
     # exact, fully qualified names: kani's default filter is a substring match, which would also run
     # (and pay for) every harness whose name merely starts with a selected one
     exact = ["--exact"]
@@ -373,7 +384,10 @@ def run_group(ws, crate, group, logfile, tier, _second_pass=False, _uw=None, _so
         cmd += ["--cbmc-args", "--unwindset", ",".join("%s:%d" % kv for kv in sorted(uw.items()))]
     waves = (len(group) + jobs - 1) // jobs
     log_from = os.path.getsize(logfile)
-    rc = run(cmd, ws.repo, cap * waves + 900, logfile, mem_kb=mem_kb)
+    # `ulimit -v` is inherited by the whole process tree, kani-compiler included, which needs about
+    # 8 GB of address space for gluon_vm: the per-process guard is never set below COMPILER_MEM_KB
+    # (the memory class of a group still decides how many CBMC processes run side by side)
+    rc = run(cmd, ws.repo, cap * waves + 900, logfile, mem_kb=max(mem_kb, COMPILER_MEM_KB))
     if rc != 0:
         with open(logfile, errors="replace") as lf:
             lf.seek(log_from)
@@ -608,7 +622,7 @@ def main():
             groups.setdefault(h.group_key(), []).append(h)
         for key in sorted(groups, key=lambda k: (k[0], len(k[1]))):
             g = groups[key]
-            log("group %s unwindset=%s mem=%s: %d harnesses" % (key[0], list(key[1]), key[2] or "default", len(g)))
+            log("group %s unwindset=%s: %d harnesses" % (key[0], list(key[1]), len(g)))
             run_group(ws, key[0], g, logfile, args.tier)
         known = load_known()
         rc = report(prop, args.tier, seed, sel, known, uncovered, t0, ws, logfile)
@@ -702,6 +716,14 @@ def write_evidence(prop, tier, seed, sel, uncovered, t0, note=None, violations=0
             s["rerun_alone_after"] = h.first_status
         samples.append(s)
     proofs = [h for h in sel if not h.is_canary]
+    # every function replaced by a stub in the harness files of this run (part of the claim)
+    stubs = set()
+    for f in sorted({h.file for h in sel}):
+        try:
+            for m in re.finditer(r"#\[kani::stub\(\s*([^,]+?)\s*,\s*([^)]+?)\s*\)\]", open(f).read()):
+                stubs.add("%s -> %s" % (m.group(1), m.group(2)))
+        except OSError:
+            pass
     ev = {
         "property_id": prop,
         "tier": tier,
@@ -720,6 +742,11 @@ def write_evidence(prop, tier, seed, sel, uncovered, t0, note=None, violations=0
             "known_finding_harnesses": sum(1 for h in proofs if h.status == "FAIL" and not h.unexplained),
             "canaries": {h.name: h.status for h in sel if h.is_canary},
             "uncovered": uncovered,
+            "stubs": sorted(stubs),
+            "bounds": sorted({h.bound for h in proofs if h.bound}),
+            "functions_encoded": sorted({f for h in proofs for f in h.funcs}),
+            "checker_cmd": "cargo kani -Z stubbing -Z unstable-options -p <crate> --exact --harness <name> ... (driver: /verif/lib/vcheck.py)",
+            "trusted_base": ["Kani 0.68.0 (MIR -> GOTO)", "CBMC 6.11.0 + CaDiCaL", "overlay of /verif/lib/vcheck.py (futures `compat` feature removed, harness modules appended under cfg(kani))", "reference models and stubs in /verif/harness"],
             "solver_time_s": round(sum(h.time_s or 0 for h in sel), 2),
             "engine": "Kani 0.68.0 / CBMC 6.11.0 / CaDiCaL on code compiled from /repo's working tree",
             "explanation": "bounded model checking: SAT-based, no explicit state or transition counts",
